@@ -56,11 +56,12 @@ structure FrameC (k k' : Conn) : Prop where
   dead : k.phase = .dead → k.freed = false → k'.phase = .dead ∧ k'.freed = false
   acc : k.phase = .accepting → k'.phase = .accepting
   non : k.phase = .none → k'.phase = .none
+  nn : k.phase ≠ .none → k'.phase ≠ .none
 
 def Frame (s s' : St) : Prop := ∀ i, FrameC (s.conns i) (s'.conns i)
 
 theorem FrameC.refl (k : Conn) : FrameC k k :=
-  ⟨rfl, rfl, rfl, fun h => ⟨h, rfl⟩, fun h h' => ⟨h, h'⟩, fun h => h, fun h => h⟩
+  ⟨rfl, rfl, rfl, fun h => ⟨h, rfl⟩, fun h h' => ⟨h, h'⟩, fun h => h, fun h => h, fun h => h⟩
 
 theorem FrameC.trans {a b c : Conn} (h1 : FrameC a b) (h2 : FrameC b c) : FrameC a c where
   b1 := h2.b1.trans h1.b1
@@ -75,6 +76,7 @@ theorem FrameC.trans {a b c : Conn} (h1 : FrameC a b) (h2 : FrameC b c) : FrameC
     exact h2.dead x y
   acc h := h2.acc (h1.acc h)
   non h := h2.non (h1.non h)
+  nn h := h2.nn (h1.nn h)
 
 theorem Frame.refl (s : St) : Frame s s := fun _ => FrameC.refl _
 theorem Frame.trans {a b c : St} (h1 : Frame a b) (h2 : Frame b c) : Frame a c :=
